@@ -262,22 +262,21 @@ func (r *result) adjustAnnotations(annotations map[string]string, plugin string)
 		}
 	}
 
+	// first apply removals, whether or not the annotation gets set again
+	for k := range del {
+		r.owners.clearAnnotation(id, k)
+		delete(create.Container.Annotations, k)
+		delete(r.reply.adjust.Annotations, k)
+		r.reply.adjust.Annotations[MarkForRemoval(k)] = ""
+	}
+
+	// then apply additions/modifications
 	for k, v := range annotations {
-		if _, ok := del[k]; ok {
-			r.owners.clearAnnotation(id, k)
-			delete(create.Container.Annotations, k)
-			r.reply.adjust.Annotations[MarkForRemoval(k)] = ""
-		}
 		if err := r.owners.claimAnnotation(id, k, plugin); err != nil {
 			return err
 		}
 		create.Container.Annotations[k] = v
 		r.reply.adjust.Annotations[k] = v
-		delete(del, k)
-	}
-
-	for k := range del {
-		r.reply.adjust.Annotations[MarkForRemoval(k)] = ""
 	}
 
 	return nil
